@@ -21,6 +21,10 @@ type gridClient struct {
 	PSK  bool // spec carries a pre_shared_key extension: run with OmitEmptyPsk
 	// NextProtos is the application's Config.NextProtos for this run.
 	NextProtos []string
+	// Cache: the Config gets a ClientSessionCache (session features enabled).
+	Cache bool
+	// Prep runs after the spec (if any) was applied, before the handshake.
+	Prep func(u *tls.UConn) error
 }
 
 func specHasPSK(id tls.ClientHelloID) bool {
@@ -77,20 +81,40 @@ func (g gridClient) config(serverName string) *tls.Config {
 	c := peer.ClientConfig(serverName)
 	c.OmitEmptyPsk = g.PSK
 	c.NextProtos = append([]string(nil), g.NextProtos...)
+	if g.Cache {
+		c.ClientSessionCache = tls.NewLRUClientSessionCache(8)
+	}
 	return c
 }
 
 func (g gridClient) prepare() func(u *tls.UConn) error {
-	if g.Spec == nil {
+	if g.Spec == nil && g.Prep == nil {
 		return nil
 	}
 	return func(u *tls.UConn) error {
-		sp, err := g.Spec()
-		if err != nil {
-			return err
+		if g.Spec != nil {
+			sp, err := g.Spec()
+			if err != nil {
+				return err
+			}
+			if err := u.ApplyPreset(sp); err != nil {
+				return err
+			}
 		}
-		return u.ApplyPreset(sp)
+		if g.Prep != nil {
+			return g.Prep(u)
+		}
+		return nil
 	}
+}
+
+// fakePSKInjected: a PSK parrot whose pre_shared_key extension is replaced, through the documented
+// SetPskExtension call, by a FakePreSharedKeyExtension (identity and binder bytes of a capture,
+// no session behind them).
+func fakePSKInjected(base NamedID) gridClient {
+	return gridClient{Name: base.Name + "+SetPskExtension(fake)", ID: base.ID, PSK: true, Cache: true, Prep: func(u *tls.UConn) error {
+		return u.SetPskExtension(&tls.FakePreSharedKeyExtension{Identities: []tls.PskIdentity{{Label: rep(0x41, 32), ObfuscatedTicketAge: 7}}, Binders: [][]byte{rep(0x42, 32)}})
+	}}
 }
 
 // probeHello builds one throw-away hello of this client to learn what it offers.
@@ -386,4 +410,29 @@ func whoFailed(h *peer.HS) string {
 		return "stall"
 	}
 	return "unknown"
+}
+
+// Build orders: the documented ways for a caller to reach the handshake. Every one of them must
+// put the same offer on the wire and keep the connection usable.
+var buildOrderNames = []string{"Handshake", "BuildHandshakeState+Handshake", "BuildHandshakeStateWithoutSession+BuildHandshakeState+Handshake"}
+
+// withBuildOrder wraps a Prepare function with the explicit build calls of the given order
+// (the handshake driver calls Handshake afterwards).
+func withBuildOrder(prep func(u *tls.UConn) error, order int) func(u *tls.UConn) error {
+	if order == 0 {
+		return prep
+	}
+	return func(u *tls.UConn) error {
+		if prep != nil {
+			if err := prep(u); err != nil {
+				return err
+			}
+		}
+		if order == 2 {
+			if err := u.BuildHandshakeStateWithoutSession(); err != nil {
+				return err
+			}
+		}
+		return u.BuildHandshakeState()
+	}
 }
